@@ -135,7 +135,7 @@ theorem finish_star (q : SelQ n) (Îº : Row n) (h : âˆ€ v, Îº v â‰  none â†’ v âˆ
     intro v hv
     rw [mem_domOf] at hv
     simp only [starVars, List.mem_append]
-    exact Or.inl (h v hv)
+    exact Or.inl (Or.inl (h v hv))
 
 theorem evalInit_eq_evalValues_graph (g : List Triple) (Îº : Row n) (q : SelQ n) (h : Outermost Îº q) :
     evalInit (graphStore g) Îº q = evalValues (graphStore g) Îº q := by
